@@ -123,6 +123,16 @@ CHECKS = {
              "configurations each start exactly once with their own function and argument, complete before their joiner, "
              "before the join of the only stream serving their pool and before ABT_finalize return; pools empty at quiescence",
         ref="DESIGN.md §5 C01"),
+    "C03": dict(
+        technique="runtime monitoring: scripted join trials over the caller x target x behaviour x timing x API matrix with "
+                  "completion flags and a 64-word pattern checked at the instant join/free returns, handle/state checks, "
+                  "delay injection at the join-request/exit handshake points, ASan (freed descriptor/stack) and TSan builds",
+        category="exploration",
+        text="held on the executions produced: hundreds of distinct legal combinations of the join matrix per run, with all "
+             "five handshake classes observed (no joiner, link ready, exiting ULT waited for the link, yield-loop fallback, "
+             "futex wake): join/free never returned before the target finished, its writes were visible, state TERMINATED, "
+             "handle NULL, and every join returned",
+        ref="DESIGN.md §5 C03"),
 }
 
 
